@@ -634,6 +634,10 @@ func genFacts(repo string) []byte {
 	b.WriteString(genCondActions(srv, "Server", "streamDB", "streamDBConds") + "\n")
 	b.WriteString(genCondActions(srv, "Server", "streamLTX", "streamLTXConds") + "\n")
 	b.WriteString(genCondActions(files["store.go"], "Store", "processLTXStreamFrame", "processFrameConds") + "\n")
+	b.WriteString(genRouteTable(srv) + "\n")
+	for _, hn := range []string{"handleGetExport", "handlePostHalt", "handleDeleteHalt", "handlePostHandoff", "handlePostImport", "handlePostPromote", "handlePostTx"} {
+		b.WriteString(genCondActions(srv, "Server", hn, "api_"+hn+"Conds") + "\n")
+	}
 	px := parseFile(filepath.Join(repo, "http/proxy_server.go"))
 	b.WriteString(genCondActions(px, "ProxyServer", "serveHTTP", "proxyServeHTTPConds") + "\n")
 	b.WriteString(genCondActions(px, "ProxyServer", "serveRead", "proxyServeReadConds") + "\n")
@@ -850,6 +854,8 @@ func genCondActions(f *ast.File, recv, fn, lean string) string {
 						kind = strings.TrimPrefix(fn, "s.")
 					case fn == "http.Error" && len(x.Args) == 3:
 						kind = "http.Error " + src(x.Args[2])
+					case fn == "Error" && len(x.Args) == 4:
+						kind = "Error " + src(x.Args[3])
 					case fn == "http.SetCookie":
 						kind = "set-cookie"
 					}
@@ -862,7 +868,13 @@ func genCondActions(f *ast.File, recv, fn, lean string) string {
 	var out []string
 	var walk func(list []ast.Stmt)
 	walkIf := func(x *ast.IfStmt) {}
+	lastErrCall := ""
 	noteAssign := func(x *ast.AssignStmt) {
+		for _, l := range x.Lhs {
+			if src(l) == "err" && len(x.Rhs) == 1 {
+				lastErrCall = src(x.Rhs[0])
+			}
+		}
 		if len(x.Lhs) == 1 && src(x.Lhs[0]) == "expectedPos" {
 			out = append(out, fmt.Sprintf("(%q, %q)", "expectedPos", src(x.Rhs[0])))
 		}
@@ -882,6 +894,8 @@ func genCondActions(f *ast.File, recv, fn, lean string) string {
 		cond := src(x.Cond)
 		if cond != "err != nil" && !strings.HasPrefix(cond, "err == ") && !strings.Contains(cond, "err != nil") {
 			out = append(out, fmt.Sprintf("(%q, %q)", cond, classify(x.Body)))
+		} else if k := classify(x.Body); cond == "err != nil" && strings.HasPrefix(k, "Error ") {
+			out = append(out, fmt.Sprintf("(%q, %q)", "err: "+lastErrCall, k))
 		}
 		walk(x.Body.List)
 		switch e := x.Else.(type) {
@@ -917,4 +931,57 @@ func genCondActions(f *ast.File, recv, fn, lean string) string {
 	fmt.Fprintf(&b, "/-- conditions of `%s` in source order with the action of each branch -/\n", fn)
 	fmt.Fprintf(&b, "def %s : List (String × String) := [\n  %s\n]\n", lean, strings.Join(out, ",\n  "))
 	return b.String()
+}
+
+// genRouteTable extracts the path / method switch of Server.serveHTTP: path -> [(method, handler)].
+func genRouteTable(f *ast.File) string {
+	fd := findFunc(f, "Server", "serveHTTP")
+	var rows []string
+	if fd != nil {
+		for _, st := range fd.Body.List {
+			sw, ok := st.(*ast.SwitchStmt)
+			if !ok {
+				continue
+			}
+			if p, ok := selPath(sw.Tag); !ok || p != "r.URL.Path" {
+				continue
+			}
+			for _, cc := range sw.Body.List {
+				c := cc.(*ast.CaseClause)
+				for _, e := range c.List {
+					lit, ok := e.(*ast.BasicLit)
+					if !ok {
+						continue
+					}
+					var ms []string
+					for _, inner := range c.Body {
+						msw, ok := inner.(*ast.SwitchStmt)
+						if !ok {
+							continue
+						}
+						for _, mcc := range msw.Body.List {
+							mc := mcc.(*ast.CaseClause)
+							for _, me := range mc.List {
+								mp, _ := selPath(me)
+								handler := ""
+								ast.Inspect(&ast.BlockStmt{List: mc.Body}, func(n ast.Node) bool {
+									if call, ok := n.(*ast.CallExpr); ok && handler == "" {
+										if hp, ok := selPath(call.Fun); ok && strings.HasPrefix(hp, "s.handle") {
+											handler = strings.TrimPrefix(hp, "s.")
+										}
+									}
+									return true
+								})
+								ms = append(ms, fmt.Sprintf("(%q, %q)", strings.TrimPrefix(mp, "http.Method"), handler))
+							}
+						}
+					}
+					if len(ms) > 0 {
+						rows = append(rows, fmt.Sprintf("(%s, [%s])", lit.Value, strings.Join(ms, ", ")))
+					}
+				}
+			}
+		}
+	}
+	return "/-- the path / method table of `Server.serveHTTP` (paths whose case contains a method switch) -/\ndef apiRoutes : List (String × List (String × String)) := [\n  " + strings.Join(rows, ",\n  ") + "\n]\n"
 }
